@@ -263,9 +263,10 @@ PLANS["C19"] = {
              "-O sol[.gz|.bz2], -p k, -d k, -S, -P bits, -b/-B round trip); esolver is run as a child process; exit status, status line (against the Fourier-Motzkin truth of the problem as re-read from the file), and for OPTIMAL "
              "the exact optimality certificate rebuilt from the listed non-zero VARS / REDUCED COST / PI / SLACK are checked; 32 malformed or unreadable inputs must give a non-zero exit without a signal; own=1: the harness renders the .lp/.mps text itself (no library code) under legal but unusual names (pct%d, sh%%re, x%5.2fy, v.1{a}, r%x, c%%1, lim&2, row~3) and the model is the instance itself; "
              "non-trivial = instance with a row and a non-zero coefficient"),
-    "quick": [fam("esol-S0q1-dev0", "prod", "esol", {"fam": "S0q1", "dev": 0, "kinds": "basic", "bad": 1}, weight=3, crash_props=["C17", "C19"], esolver="prod", timeout=120),
+    "quick": [fam("esol-T-dev1", "prod", "esol", {"fam": "T", "dev": 1, "kinds": "basic", "tscale": 30}, weight=3, crash_props=["C17", "C19"], esolver="prod", timeout=300),
               fam("esol-S0q1-own", "prod", "esol", {"fam": "S0q1", "dev": 0, "kinds": "basic", "own": 1}, weight=3, crash_props=["C17", "C19"], esolver="prod", timeout=120),
-              fam("esol-T-dev1", "prod", "esol", {"fam": "T", "dev": 1, "kinds": "basic", "tscale": 30}, weight=3, crash_props=["C17", "C19"], esolver="prod", timeout=300)],
+              fam("esol-S0q1-dev0", "prod", "esol", {"fam": "S0q1", "dev": 0, "kinds": "basic", "bad": 1}, weight=3, crash_props=["C17", "C19"], esolver="prod", timeout=120)],
+    "deadline": {"quick": 900, "thorough": 1500},
     "thorough": [fam("esol-S0q1-own-dev1", "prod", "esol", {"fam": "S0q1", "dev": 1, "kinds": "basic", "own": 1}, weight=6, crash_props=["C17", "C19"], esolver="prod", timeout=120),
                  fam("esol-S0q1-dev1-all", "prod", "esol", {"fam": "S0q1", "dev": 1, "kinds": "all", "bad": 1}, weight=10, crash_props=["C17", "C19"], esolver="prod", timeout=120),
                  fam("esol-T-dev1-all", "prod", "esol", {"fam": "T", "dev": 1, "kinds": "all"}, weight=4, crash_props=["C17", "C19"], esolver="prod", timeout=600),
